@@ -15,10 +15,10 @@ def build():
     ensure_tfel(("mfront", "tfel-check"))
     out = os.path.join(BUILD, PID)
     inc = REPO_INC + ["-I" + os.path.join(REPO, "tfel-check/include"), "-I" + os.path.join(REPO, "mfront/include")] + tfel_inc()
-    flags = ["-O1", "-g", "-DNDEBUG", "-DVSIM_PROC", "-ftrivial-auto-var-init=pattern", '-DVERSION="verif"', "-DTFEL_ARCH64", "-DHAVE_FENV"] + SAN + inc
+    flags = ["-O1", "-g", "-DNDEBUG", "-DTFEL_VERIF", "-DVSIM_PROC", "-ftrivial-auto-var-init=pattern", '-DVERSION="verif"', "-DTFEL_ARCH64", "-DHAVE_FENV"] + SAN + inc
     cflags = ["-O1", "-g", "-DNDEBUG"] + SAN + inc
     units = [(os.path.join(VERIF, "harness/C52/h52.cpp"), flags), (os.path.join(VERIF, "sim/vsim.cpp"), flags),
-             (os.path.join(REPO, "tfel-check/src/tfel-check.cxx"), flags + ["-Dmain=tfel_check_main"])]
+             (os.path.join(REPO, "tfel-check/src/tfel-check.cxx"), flags + ["-Dmain=tfel_check_main", "-DinitDSLs=verifInitDSLsOnce", "-DinitInterfaces=verifInitInterfacesOnce"])]
     tc = os.path.join(REPO, "tfel-check/src")
     units += [(os.path.join(tc, f), flags) for f in sorted(os.listdir(tc)) if f.endswith(".cxx") and f != "tfel-check.cxx"]
     sysd = os.path.join(REPO, "src/System")
@@ -58,7 +58,7 @@ def main():
     wd = fresh_workdir(PID)
     try:
         spec = dict(
-            pid=PID, level="exploration", binaries={"asan": (exe, ["--workdir", wd])}, runs={"quick": 1280, "thorough": 40000}, thorough_budget_s=900, chunk=1,
+            pid=PID, level="exploration", binaries={"asan": (exe, ["--workdir", wd])}, runs={"quick": 2000, "thorough": 100000}, thorough_budget_s=900, chunk=40,
             signature=signature, param_min=[1, 0, 0],
             nontrivial=lambda r: r.get("ctr", {}).get("fork", 0) >= 1 and r.get("ctr", {}).get("context_switches", 0) >= 4,
             rule="one run = one seeded set of .check files (1..6 quick / 1..12 thorough, in 1..3 directories; commands exiting 0 / k / by a signal / failing to exec, with or without shall_fail, expected_output checks that match or not, "
